@@ -144,7 +144,7 @@ def limit_cases(ctx: Ctx) -> list:
                         # values exactly on a bound belong to both neighbouring input classes: classify the input consistently
                         xi = "below" if x <= lo else "above" if x >= hi else "inside"
                         out.append(dict(ev="limits", env=name, **REGION_KEYS, term=False, rew_m=0, xin=xi, vin=vin, xout=xout, vout=vout,
-                                        atoms={}, x=x, v=v))
+                                        atoms={}, probe_x=x, probe_v=v))
     return out
 
 
